@@ -58,6 +58,8 @@ STATEMENT_STATUS = {
     "C18_inline_scan_ws_rule": "proved (any separator, also none, after a body without marker whose last byte is not E/I)",
     "C18_inline_scan_pseof": "proved (no marker and not ending in EI: PSEOF)",
     "C18_inline_scan_norestart_cex": "proved (E directly in front of EI hides the marker: limit of the rule)",
+    "C18_abbrev_tables": "proved on key tuples / filter / colour space literals regenerated from layout.py, pdftypes.py, pdfinterp.py, pdfcolor.py",
+    "C18_eos_both_keys": "proved (end marker independent of the spelling /F | /Filter; fix 964c0ea)",
     "C18_branch_table": "proved (decision table of export_image over plausibility, filters, bits, colour space: total, rows disjoint)",
     "C18_export_by_branch": "proved (export_image = what the selected row does; tied by spying on the _save_* calls)",
     "C18_bmp_rt": "proved (gray-8, RGB-8, 1-bit; all w,h >= 1 within BMP limits; any lossless filter list; any listing)",
